@@ -153,6 +153,7 @@ class Ctx:
         self._h = hashlib.blake2b(digest_size=16)
         self.trace = [] if trace else None
         self.cover_keys = set()
+        self.cover_calls = 0
         self.faults = {}
         self.probes = {}
         self.notes = {}
@@ -214,6 +215,7 @@ class Ctx:
 
     def cover(self, key):
         self.cover_keys.add(key)
+        self.cover_calls += 1       # one judged case (a run may judge several)
 
     def fault(self, kind, n=1):
         self.faults[kind] = self.faults.get(kind, 0) + n
